@@ -266,7 +266,10 @@ def main(pid, tier, jobs = None, only = None, seed = None):
     wall = time.time() - t0
     ev = build_evidence(pid, tier, seed, mod, obs, results, counts, conf, spurious, len(violations), wall, known_hit)
     os.makedirs(os.path.join(ROOT, 'evidence'), exist_ok = True)
-    json.dump(ev, open(os.path.join(ROOT, 'evidence', pid + '.json'), 'w'), indent = 1, sort_keys = True, default = str)
+    # a run restricted with --only is a debugging run: its (partial) evidence goes next to the replays, never over the evidence of the full check
+    evpath = os.path.join(ROOT, 'replays', pid + '.partial-evidence.json') if only else os.path.join(ROOT, 'evidence', pid + '.json')
+    os.makedirs(os.path.dirname(evpath), exist_ok = True)
+    json.dump(ev, open(evpath, 'w'), indent = 1, sort_keys = True, default = str)
     log('== %s %s: %s; spurious models=%d; conformance replays=%d; wall %.1fs' % (pid, tier, counts, spurious, conf['replayed'], wall))
     if violations: return 1
     if harness_error:
